@@ -8,7 +8,7 @@
 //! All sa_auth harnesses run with `--cbmc-args --max-field-sensitivity-array-size 128` (the 96-word argument
 //! buffers stay field-sensitive; without it the whole-check harnesses exhaust 12 GB).
 //! Profiles (see checks/reg_smartaccount.py): `sa_auth` = cap2 + bytes32 + vw24 + valdigest + aw96,
-//! `sa_auth3` = cap3 + bytes32 + vw24 + valdigest + aw96 + nc12 + nh12.
+//! (a CAP = 3 variant - three listed rules - exhausts 12 GB and is not registered).
 //!   bytes32: the 32-byte signature payload is handed to the verifier as `Bytes`; Bytes W = 5, Signer W = 7,
 //!   Vec<Signer> W = 15 / 22 (<= VW 24), Meta W = 12, ContextRule W = 31 / 39, Context W = 21 / 26;
 //!   `can_enforce(context, signers, rule, account)` = 68 / 88 argument words (<= AW 96);
@@ -900,19 +900,7 @@ pub fn select_own_default_2pol() {
 pub fn select_default_default_2pol() {
     let _ = select(&shape(2, 2), CREATE_CTOR, 2, 2);
 }
-/// thorough, CAP = 3 profile: three listed rules
-#[cfg(feature = "cap3")]
-#[kani::proof]
-#[kani::unwind(98)]
-pub fn select_own_own_default() {
-    let _ = select(&[2, 1, 1], CALL, 3, 1);
-}
-#[cfg(feature = "cap3")]
-#[kani::proof]
-#[kani::unwind(98)]
-pub fn select_own_default_default() {
-    let _ = select(&[2, 2, 1], CALL, 3, 1);
-}
+// (three listed rules at CAP = 3, bytes32: 12 GB are not enough for the SAT instance; not registered)
 
 /// the whole check through the example's `__check_auth`: one listed rule (Default) + one stored but unlisted rule
 #[kani::proof]
@@ -956,22 +944,23 @@ pub fn check_auth_own_and_default_rule() {
     witness!(o.fell_through[0], "earlier_candidate_failed_first");
     witness!(o.skipped_expired[0], "expired_earlier_candidate_skipped");
 }
-/// thorough: a batch of 2 contract-call contexts (same or different contracts) over one Default rule
+/// thorough: a batch of 2 contexts (a contract call and a contract creation: different rule types, own id list
+/// each) over one Default rule with <= 1 signer and <= 1 policy, <= 1 signature. (Two contract calls with
+/// possibly equal contracts, or two signers / signatures, exhaust 12 GB.)
 #[kani::proof]
 #[kani::unwind(98)]
 pub fn check_auth_2ctx_one_default_rule() {
-    let sc = scenario_shaped(&shape(0, 2), [CALL, CALL], 2, 2, 1, 2);
+    let sc = scenario_shaped(&shape(0, 2), [CALL, CREATE], 2, 1, 1, 1);
     run(&sc, false);
-    let _ = soundness(&sc, DECLARED_2);
-    witness!(sc.ctx_kind[1] == 3, "contexts_of_different_types");
-    witness!(sc.ctx_kind[1] == 1, "contexts_of_the_same_type");
-}
-/// thorough: a contract call and a contract creation in one batch, an own-type rule for the call + a Default rule
-#[kani::proof]
-#[kani::unwind(98)]
-pub fn check_auth_2ctx_mixed() {
-    let sc = scenario_shaped(&shape(1, 2), [CALL, CREATE], 2, 2, 1, 2);
-    run(&sc, false);
-    let _ = soundness(&sc, DECLARED_2);
-    witness!(true, "mixed_batch_accepted");
+    let o = reference(&sc, false);
+    prop!(o.verify_trace, "C03.check_auth.each_external_signature_sent_to_its_verifier_exactly");
+    prop!(o.verified, "C03.check_auth.every_verifier_answered_true");
+    prop!(o.delegated, "C03.check_auth.delegated_signers_authorized_the_payload");
+    prop!(o.query_trace, "C03.check_auth.rules_tried_in_precedence_order_with_exactly_the_rule_signers_supplied");
+    prop!(o.covered, "C03.check_auth.every_context_covered_by_a_live_satisfied_rule");
+    prop!(o.enforce_trace && o.complete, "C03.check_auth.enforce_exactly_once_per_policy_of_the_chosen_rule");
+    let f = facts(&sc, &o);
+    witness!(f.pol == 1, "policy_enforced_once_per_context");
+    witness!(f.kind == 2 && f.pol == 0 && f.sig == 1, "signer_rule_covers_both_contexts");
+    end_checks(DECLARED_2);
 }
